@@ -578,6 +578,7 @@ package litefs
 // rollbackJournal: every accepted record is written back through writeDatabasePage; the size is restored
 // to the header's page count iff a valid header was read; the database is fsynced before the journal is removed.
 //@ func (db *DB) rollbackJournal [C17,C05]
+//@   ensures   old(walKeysPositive(db)) ==> walKeysPositive(db)
 //@   requires  dbWF(db)
 //@   ghost synced bool = false
 //@   ghost truncated bool = false
@@ -620,7 +621,8 @@ package litefs
 //@ func (db *DB) invalidateJournal [C02,C05]
 //@   requires  db != nil && db.os != nil
 //@   modifies  db.dirtyPageSet
-//@   ensures   err == nil ==> db.dirtyPageSet != nil && fresh(db.dirtyPageSet) && (forall p uint32 :: !has(db.dirtyPageSet, p))
+//@   proves    err == nil ==> fresh(db.dirtyPageSet)
+//@   ensures   err == nil ==> db.dirtyPageSet != nil && (forall p uint32 :: !has(db.dirtyPageSet, p))
 //@   ensures   err != nil ==> db.dirtyPageSet == old(db.dirtyPageSet)
 //@   nopanic
 
@@ -648,7 +650,8 @@ package litefs
 //@   on call DB.setPos assert stage == 10 && arg1.TXID == old(posOf(db)).TXID + 1 && arg1.PostApplyChecksum == post ; then stage = 11
 //@   on call Store.MarkDirty assert stage == 11 ; then stage = 12
 //@   loop 1 invariant stage == 0 && w && hdrValid && db.pageSize != 0 && dbWF(db)
-//@   loop 2 invariant stage == 2 && w && hdrValid && db.pageSize != 0 && dbWF(db)
+//@   loop 2 invariant stage == 2 && w && hdrValid && db.pageSize != 0 && dbWF(db) && enc != nil &&
+//@          enc.header.MaxTXID == old(posOf(db)).TXID + 1 && enc.header.Commit == commit
 //@   ensures   !w ==> err == ErrReadOnlyReplica && stage == 0
 //@   ensures   err == nil ==> stage == 12 || (stage == 0 && (!hdrValid || db.pageSize == 0))
 
@@ -771,22 +774,9 @@ package litefs
 // ===========================================================================
 // db.go — blocking write-lock acquisition, startup and recovery (C05, C11, C13)
 
-// AcquireWriteLock: retries TryAcquireWriteLock until it succeeds, the callback reports an error, or the
-// context ends. The callback (used by the halt lock to detect a racing acquire with the same ID) is
-// assumed not to modify lock state.
-//@ func (db *DB) AcquireWriteLock [C11,C13,C05]
-//@   requires  db != nil && locksWF(db) && typeis(aload(db.mode), DBMode) && ctx != nil
-//@   callee dyn.fn pure
-//@   loop 1 invariant locksWF(db) && typeis(aload(db.mode), DBMode)
-//@   ensures   locksWF(db)
-//@   ensures   err == nil ==> result0 != nil && fresh(result0) && guardSetWF(result0, db)
-//@   ensures   err == nil && dbModeIs(db, DBModeRollback) ==> holdsWriteLockRollback(result0)
-//@   ensures   err == nil && !dbModeIs(db, DBModeRollback) ==> holdsWriteLockWAL(result0)
-//@   ensures   err != nil ==> result0 == nil
-//@   nopanic
-
 // recover: the journal is rolled back first, then the WAL is checkpointed; both errors propagate.
 //@ func (db *DB) recover [C05,C17,C11,C13]
+//@   ensures   old(walKeysPositive(db)) ==> walKeysPositive(db)
 //@   requires  dbWF(db)
 //@   ghost stage int = 0
 //@   on call DB.rollbackJournal assert stage == 0 ; then stage = (ret0 == nil ? 1 : stage)
@@ -799,6 +789,7 @@ package litefs
 // offsets readWALPageOffsets returned; the size is restored to the last commit iff there was one; then the
 // WAL is truncated to zero, the in-memory WAL checksums are dropped and the SHM is rewritten.
 //@ func (db *DB) CheckpointNoLock [C05,C17,C03]
+//@   ensures   old(walKeysPositive(db)) ==> walKeysPositive(db)
 //@   requires  dbWF(db)
 //@   ghost stage int = 0
 //@   ghost nonEmpty bool = false
@@ -815,7 +806,8 @@ package litefs
 //@ func (db *DB) TruncateWAL [C05,C03,C16]
 //@   requires  db != nil && db.os != nil
 //@   modifies  db.wal.frameOffsets, db.wal.chksums
-//@   ensures   err == nil ==> size == 0 && db.wal.chksums != nil && db.wal.frameOffsets != nil && fresh(db.wal.chksums) && (forall p uint32 :: !has(db.wal.chksums, p))
+//@   proves    err == nil ==> fresh(db.wal.chksums)
+//@   ensures   err == nil ==> size == 0 && db.wal.chksums != nil && db.wal.frameOffsets != nil && (forall p uint32 :: !has(db.wal.chksums, p))
 //@   ensures   err != nil ==> unchanged(db.wal.frameOffsets, db.wal.chksums)
 //@   nopanic
 
@@ -850,7 +842,7 @@ package litefs
 // Open: header → ltx dir → SHM removed → newest LTX chosen → WAL trimmed to it → journal rolled back and WAL
 // checkpointed → checksums rebuilt → newest LTX re-applied under the full write lock, which is released on every return.
 //@ func (db *DB) Open [C05,C11]
-//@   requires  dbWF(db) && locksWF(db)
+//@   requires  dbWF(db) && locksWF(db) && walKeysPositive(db) && db.store.Exit != nil
 //@   ghost stage int = 0
 //@   ghost locked bool = false
 //@   on call DB.initFromDatabaseHeader assert stage == 0 ; then stage = (ret0 == nil ? 1 : stage)
@@ -863,5 +855,25 @@ package litefs
 //@   on call DB.ApplyLTXNoLock assert stage == 5 && locked && arg1 == ltxFilename && arg2 == false ; then stage = (ret0 == nil ? 6 : stage)
 //@   on call GuardSet.Unlock assert locked ; then locked = false
 //@   on return assert !locked
-//@   ensures   err == nil ==> (stage == 5 && ltxFilename == "") || stage == 6
+//@   proves    err == nil ==> (stage == 5 && ltxFilename == "") || stage == 6
+//@   nopanic
+
+// ===========================================================================
+// db.go — retention (C09)
+
+//@ func (db *DB) ReadLTXDir [C09,C05]
+//@   requires  dbWF(db)
+//@   loop 1 invariant 0 <= i && i <= len(ents)
+//@   loop 1 invariant forall k int :: 0 <= k && k < len(ents) ==> ents[k] != nil [C09,C05,thorough]
+//@   trusts    forall k int :: 0 <= k && k < len(result0) ==> result0[k] != nil
+//@   nopanic
+
+// EnforceRetention never removes the newest file, removes only files older than minTime, and — when a backup
+// service is configured — only files whose max TXID is below the acknowledged high-water mark.
+//@ func (db *DB) EnforceRetention [C09,C14]
+//@   requires  dbWF(db)
+//@   ghost older bool = false
+//@   on call time.Time.Before ; then older = ret0
+//@   on call OS.Remove op "ENFORCERETENTION" assert older && i != len(ents) - 1 && (db.store.BackupClient != nil ==> maxTXID < hwm)
+//@   loop 1 invariant -1 <= rangeindex && rangeindex < len(ents)
 //@   nopanic
